@@ -203,6 +203,72 @@ def run_suite(suite, tier, seed, key):
         except OSError: pass
     return r
 
+def run_conc_suite(suite, tier, seed, key):
+    """thread-level suite: MC_Conc explores the model's interleavings, rxthreads explores the real ones;
+    every distinct real outcome is compared with the model's outcome set and judged by TraceConc"""
+    wd = os.path.join(CACHE, key, "%s_%s" % (suite, tier))
+    resf = os.path.join(wd, "result.json")
+    if os.path.exists(resf):
+        r = json.load(open(resf)); r["cached"] = True
+        return r
+    shutil.rmtree(wd, ignore_errors=True)
+    os.makedirs(wd)
+    t0 = time.time()
+    for f in glob.glob(os.path.join(SPEC, "*.tla")):
+        shutil.copy(f, wd)
+    rc, out, _ = sh([sys.executable, os.path.join(VERIF, "tools", "gen.py"), suite, tier, wd], env={"VERIF_SEED": str(seed)})
+    if rc != 0: tool_error("gen.py failed: " + out)
+    cases = json.load(open(os.path.join(wd, "cases.json")))["cases"]
+    bound = 2 if tier == "quick" else 3
+    cfg = open(os.path.join(SPEC, "MC_Conc.cfg")).read().replace("CaseHi = 1", "CaseHi = %d" % len(cases)) \
+        .replace("PreemptBound = 2", "PreemptBound = %d" % bound)
+    tlc = run_tlc(wd, "MC_Conc", cfg, "tlc.out")
+    rc, out, _ = sh([sys.executable, os.path.join(VERIF, "tools", "conc_model.py"), "tlc.out", "model.json"], cwd=wd)
+    if rc != 0: tool_error("conc_model.py failed: " + out)
+    model_summary = out.strip()
+    os.remove(os.path.join(wd, "tlc.out"))
+    rc, out, wall = sh([os.path.join(HARNESS, "target", "debug", "rxthreads"), "--cases", "cases.json", "--model", "model.json",
+                        "--out", "real.json", "--bound", str(bound), "--max-runs", "3000" if tier == "quick" else "40000"],
+                       cwd=wd, timeout=5000)
+    if rc != 0: tool_error("rxthreads failed (%d): %s" % (rc, out[-2000:]))
+    real = json.load(open(os.path.join(wd, "real.json")))["cases"]
+    cand = []
+    for c in real:
+        for o in c["outcomes"]:
+            cand.append(dict(c=c["c"], tag=c["tag"], n=o["n"], in_model=o["in_model"], outcome=o["outcome"], example=o["example"]))
+    with open(os.path.join(wd, "cand.ndjson"), "w") as fo:
+        for j in cand:
+            fo.write(json.dumps(dict(c=j["c"], **j["outcome"])) + "\n")
+    def judge(kf_ids, outname):
+        cfgt = "SPECIFICATION Spec\nCONSTANT KF = %s\nPOSTCONDITION AllJudged\nCHECK_DEADLOCK FALSE\n" % tla_set(kf_ids)
+        run_tlc(wd, "TraceConc", cfgt, outname, env={"TRACE": os.path.join(wd, "cand.ndjson")}, workers=1, timeout=1200)
+        res = {}
+        for l in open(os.path.join(wd, outname), errors="replace"):
+            if l.startswith('"{'):
+                jj = json.loads(json.loads(l)); res[jj["i"]] = sorted(set(jj["bad"]))
+        return res
+    strict = judge([], "mon_strict.out")
+    lenient = {}
+    if any(strict.values()):
+        for k in known_findings():
+            lenient[k["id"]] = judge([k["id"]], "mon_%s.out" % k["id"])
+    judged = []
+    for i, j in enumerate(cand, start=1):
+        bad = strict.get(i, [])
+        if not bad and j["in_model"]: continue
+        explained = {p: [fid for fid, res in lenient.items() if p not in res.get(i, [])] for p in bad}
+        judged.append(dict(c=j["c"], tag=j["tag"], form="threads", kind="model-bad-confirmed" if j["in_model"] else "mismatch",
+                           bad=bad, explained=explained, first_diff=None,
+                           rec=dict(case=cases[j["c"] - 1], outcome=j["outcome"], example=j["example"], runs_with_this_outcome=j["n"])))
+    runs = sum(c["runs"] for c in real)
+    r = dict(suite=suite, tier=tier, seed=seed, cases=len(cases), tlc=tlc, behaviours=runs, model_bad={},
+             replay=dict(behaviours=runs, steps=0, mismatches=sum(1 for j in cand if not j["in_model"]), with_fault=0, per_form={"threads": runs},
+                         formdiffs=0, distinct_outcomes=len(cand), complete=all(c["complete"] for c in real)),
+             sample=dict(case=real[0]["tag"], outcome=real[0]["outcomes"][0]["outcome"], schedule=real[0]["outcomes"][0]["example"]["sched"]),
+             judged=judged, wall_s=round(time.time() - t0, 1), cached=False, tags=[c["tag"] for c in cases], model_summary=model_summary)
+    json.dump(r, open(resf, "w"))
+    return r
+
 def main():
     if len(sys.argv) < 2: tool_error("usage: check.py <PID> [--tier quick|thorough]")
     pid = sys.argv[1]
@@ -218,7 +284,7 @@ def main():
     key = tree_hash([os.path.join(REPO, "src"), os.path.join(REPO, "Cargo.toml"), os.path.join(HARNESS, "src"),
                      os.path.join(HARNESS, "Cargo.toml"), SPEC, os.path.join(VERIF, "tools"),
                      os.path.join(VERIF, "known_findings.jsonl")])
-    results = [run_suite(s, tier, seed, key) for s in plan.PLAN[pid][tier]]
+    results = [(run_conc_suite if plan.SUITES[s]["mc"] == "MC_Conc" else run_suite)(s, tier, seed, key) for s in plan.PLAN[pid][tier]]
     # ------------------------------------------------------------ verdict
     violations, known, drift = [], collections.OrderedDict(), 0
     kfs = {k["id"]: k for k in known_findings()}
